@@ -30,7 +30,8 @@ CONSTANTS
     QueryKinds,   \* query kinds generated
     ConcGrid,     \* naturals used as concentrations
     YieldK,       \* integers used as yield decomposition coefficients
-    TerminalQueries
+    TerminalQueries,
+    AllowEmpty    \* BOOLEAN: the first system of a history may have no reactions
 
 VARIABLES ws, pend, hist, out, phase
 vars == <<ws, pend, hist, out, phase>>
@@ -47,6 +48,7 @@ IsInj(q) == Cardinality(ToSet(q)) = Len(q)
 Pos(q, x) == CHOOSE i \in 1..Len(q) : q[i] = x
 SumOver(S, Op(_)) == FoldSet(LAMBDA x, acc : acc + Op(x), 0, S)
 RestrictTo(f, S) == [x \in S |-> f[x]]
+Rev(q) == [k \in 1..Len(q) |-> q[Len(q) + 1 - k]]
 
 Get(f, s) == IF s \in DOMAIN f THEN f[s] ELSE 0
 (* a reaction may carry inactive reactants/products (fields ireac, iprod; absent = none): they *)
@@ -243,13 +245,24 @@ QueryExp(sys, kind, arg) ==
       [] kind = "conv" ->
            [arr |-> AsArray(sys, arg.d), dict |-> AsDict(sys, arg.a),
             idx |-> [s \in Subst(sys) |-> Pos(sys.ss, s) - 1],
+            names |-> sys.ss,                        \* substance_names()
+            arrlist |-> arg.a,                       \* an array-like is taken as it is
+            arrextra |-> AsArray(sys, arg.d),        \* unknown keys of a mapping are ignored ...
+            refused |-> [unk |-> TRUE,               \* ... unless raise_on_unk (KeyError)
+                         size |-> TRUE,              \* array-like of the wrong length (ValueError)
+                         missing |-> TRUE],          \* mapping lacking a substance (KeyError)
+            idxint |-> [i \in 1..Len(sys.ss) |-> i - 1],   \* an integer index is returned as it is
             vkeys |-> VariedKeys(sys, arg.vals),
             varied |-> VariedArr(sys, arg.d, arg.vals, VariedKeys(sys, arg.vals))]
       [] kind = "bounds" ->
-           [ub |-> [i \in 1..Len(sys.ss) |-> UpperBound(sys, arg, sys.ss[i])]]
+           \* concentrations arg.c[s] / arg.den; arg.form = how they are passed ("dict" | "list")
+           [ub |-> [i \in 1..Len(sys.ss) |->
+                      LET b == UpperBound(sys, arg.c, sys.ss[i]) IN IF b = Inf THEN Inf ELSE Norm(<<b[1], b[2] * arg.den>>)]]
+      [] kind = "order" -> [names |-> sys.ss, arr |-> AsArray(sys, arg)]   \* what depends on the substance order
       [] kind = "dot" -> Graph(sys, arg.inact, arg.rref0)
       [] kind = "yields" ->
-           [k |-> arg.k]      \* arg.y = N^T arg.k is what the decomposition is asked for
+           \* the decomposition is asked for yields arg.y[s] / arg.den (keys listed in arg.korder)
+           [k |-> [i \in DOMAIN arg.k |-> Norm(<<arg.k[i], arg.den>>)]]
 
 (* two-system queries: arg = index of the second system *)
 PairTags(x, y) == SortPairs(({1} \X RIdx(x)) \cup ({2} \X RIdx(y)))
@@ -263,27 +276,48 @@ Query2Exp(x, y, kind) ==
 ------------------------------------------------------------------------------
 Init == ws = <<>> /\ pend = <<>> /\ hist = <<>> /\ out = [op |-> "none", fresh |-> {}] /\ phase = "run"
 
-(* substance list of a new system *)
-MakeSubst(rxs, mode, given) ==
-    LET keys == UNION { RKeys(rxs[i]) : i \in DOMAIN rxs } IN
-    CASE mode = "deduce" -> SortSpecies(keys)
-      [] mode = "set"    -> SortSpecies(ToSet(given))
-      [] OTHER           -> given       \* "list", "str", "odict": order kept
-MakeRefused(rxs, mode, given) ==
-    LET keys == UNION { RKeys(rxs[i]) : i \in DOMAIN rxs } IN
-    \/ \E i, j \in DOMAIN rxs : i # j /\ SameRx(rxs[i], rxs[j])
-    \/ (mode # "deduce" /\ ~(keys \subseteq ToSet(given)))
+(* constructor options: opt = [sort : "default" | "yes" | "no"  (sort_substances None/True/False),  *)
+(*   addmissing : BOOLEAN (missing_substances_from_keys), chk : "default" | "nodup" | "none"          *)
+(*   (default checks / dont_check={"duplicate"} / checks=())].                                        *)
+(* Substance forms: "deduce" (None), "set", "dict" (plain mapping) are sorted by default; "list",    *)
+(* "tuple", "str", "odict" keep the given order by default.                                            *)
+DefaultOpt == [sort |-> "default", addmissing |-> FALSE, chk |-> "default"]
+AllModes == {"deduce", "set", "dict", "list", "tuple", "str", "odict"}
+MakeKeys(rxs) == UNION { RKeys(rxs[i]) : i \in DOMAIN rxs }
+MakeMissing(rxs, mode, given, opt) ==
+    IF opt.addmissing /\ mode # "deduce" THEN MakeKeys(rxs) \ ToSet(given) ELSE {}
+MakeSorted(mode, opt) == opt.sort = "yes" \/ (opt.sort = "default" /\ mode \in {"deduce", "set", "dict"})
+(* the order is determined by the documentation iff the list ends up sorted, or the given form is *)
+(* ordered and at most one missing substance is appended                                          *)
+MakeDefined(rxs, mode, given, opt) ==
+    \/ MakeSorted(mode, opt)
+    \/ (mode \in {"dict", "list", "tuple", "str", "odict"} /\ Cardinality(MakeMissing(rxs, mode, given, opt)) <= 1)
+MakeSubst(rxs, mode, given, opt) ==
+    LET base == IF mode = "deduce" THEN SortSpecies(MakeKeys(rxs)) ELSE given
+        full == base \o SortSpecies(MakeMissing(rxs, mode, given, opt))
+    IN  IF MakeSorted(mode, opt) THEN SortSpecies(ToSet(full)) ELSE full
+MakeHasDup(rxs) == \E i, j \in DOMAIN rxs : i # j /\ SameRx(rxs[i], rxs[j])
+MakeUnknown(rxs, mode, given, opt) ==
+    mode # "deduce" /\ ~opt.addmissing /\ ~(MakeKeys(rxs) \subseteq ToSet(given))
+MakeRefused(rxs, mode, given, opt) ==
+    \/ (opt.chk = "default" /\ MakeHasDup(rxs))
+    \/ (opt.chk \in {"default", "nodup"} /\ MakeUnknown(rxs, mode, given, opt))
 
 (* Make: construct a system from reactions and a substance specification.  The constructor   *)
 (* refuses duplicates and reactions with unknown species.                                     *)
-Make(rxs, mode, given, comp) ==
-    /\ phase = "run"
+MakeInModel(rxs, mode, given, opt) ==
     /\ \A i \in DOMAIN rxs : IsReaction(rxs[i])
-    /\ mode \in {"deduce", "set", "list", "str", "odict"}
-    /\ (mode # "deduce" => IsInj(given))
-    /\ LET ss == MakeSubst(rxs, mode, given)
-           refused == MakeRefused(rxs, mode, given)
-           sys == [rx |-> rxs, ss |-> ss, checked |-> TRUE,
+    /\ mode \in AllModes /\ (mode # "deduce" => IsInj(given))
+    /\ opt.sort \in {"default", "yes", "no"} /\ opt.chk \in {"default", "nodup", "none"}
+    /\ MakeDefined(rxs, mode, given, opt)
+    /\ ~(opt.chk = "none" /\ MakeUnknown(rxs, mode, given, opt))   \* unchecked unknown species: not a system
+    /\ (opt.addmissing => rxs # <<>>)
+Make(rxs, mode, given, comp, opt) ==
+    /\ phase = "run"
+    /\ MakeInModel(rxs, mode, given, opt)
+    /\ LET ss == MakeSubst(rxs, mode, given, opt)
+           refused == MakeRefused(rxs, mode, given, opt)
+           sys == [rx |-> rxs, ss |-> ss, checked |-> (opt.chk = "default"),
                    comp |-> IF comp = <<>> THEN <<>> ELSE RestrictTo(comp, ToSet(ss))]
        IN  /\ (comp # <<>> => ToSet(ss) \subseteq DOMAIN comp)
            /\ ws' = IF refused THEN ws ELSE Append(ws, sys)
@@ -291,7 +325,7 @@ Make(rxs, mode, given, comp) ==
                       nr |-> IF refused THEN 0 ELSE Len(rxs),
                       fresh |-> IF refused THEN {} ELSE {Len(ws) + 1}]
            /\ phase' = IF refused /\ TerminalQueries THEN "done" ELSE "run"
-    /\ hist' = Append(hist, [op |-> "Make", rx |-> rxs, mode |-> mode, given |-> given, comp |-> comp])
+    /\ hist' = Append(hist, [op |-> "Make", rx |-> rxs, mode |-> mode, given |-> given, comp |-> comp, opt |-> opt])
     /\ pend' = <<>>
 
 IsSys(i) == i \in 1..Len(ws)
@@ -331,32 +365,49 @@ DoSubset(i, p, yes, no) ==
 (* DoAdd: the sum holds exactly the reactions of both systems (src: for each reaction of the  *)
 (* result, <<1|2, index>> of the operand it came from) and the union of their substances;     *)
 (* how = "add" creates a new system, "iadd" updates system i                                  *)
-AddMatches(x, y, src, ss) ==
+(* "-list" forms: the second operand is given as a plain list of reactions: the sum keeps the *)
+(* substances of the first operand (which must already contain the species of the list)         *)
+AddSubst(x, y, how) == IF how \in {"add-list", "iadd-list"} THEN Subst(x) ELSE Subst(x) \cup Subst(y)
+AddMatches(x, y, how, src, ss) ==
     /\ IsInj(src) /\ ToSet(src) = ({1} \X RIdx(x)) \cup ({2} \X RIdx(y))
-    /\ IsInj(ss) /\ ToSet(ss) = Subst(x) \cup Subst(y)
+    /\ IsInj(ss) /\ ToSet(ss) = AddSubst(x, y, how)
 SumSys(x, y, src, ss) ==
     [rx |-> [m \in 1..Len(src) |-> IF src[m][1] = 1 THEN x.rx[src[m][2]] ELSE y.rx[src[m][2]]],
-     ss |-> ss, checked |-> FALSE, comp |-> MergeComp(x, y)]
+     ss |-> ss, checked |-> FALSE,
+     comp |-> LET m == MergeComp(x, y) IN IF m = <<>> THEN <<>> ELSE RestrictTo(m, ToSet(ss))]
 DoAdd(i, j, how, src, ss) ==
-    /\ phase = "run" /\ IsSys(i) /\ IsSys(j) /\ how \in {"add", "iadd"} /\ (how = "iadd" => i # j)
-    /\ AddMatches(ws[i], ws[j], src, ss)
-    /\ ws' = IF how = "add" THEN Append(ws, SumSys(ws[i], ws[j], src, ss))
+    /\ phase = "run" /\ IsSys(i) /\ IsSys(j) /\ how \in {"add", "iadd", "add-list", "iadd-list"}
+    /\ (how \in {"iadd", "iadd-list"} => i # j)
+    /\ (how \in {"add-list", "iadd-list"} => SysKeys(ws[j]) \subseteq Subst(ws[i]))
+    /\ AddMatches(ws[i], ws[j], how, src, ss)
+    /\ ws' = IF how \in {"add", "add-list"} THEN Append(ws, SumSys(ws[i], ws[j], src, ss))
              ELSE [ws EXCEPT ![i] = SumSys(ws[i], ws[j], src, ss)]
-    /\ out' = [op |-> "sum", fresh |-> IF how = "add" THEN {Len(ws) + 1} ELSE {i}]
+    /\ out' = [op |-> "sum", fresh |-> IF how \in {"add", "add-list"} THEN {Len(ws) + 1} ELSE {i}]
     /\ hist' = Append(hist, [op |-> "DoAdd", i |-> i, j |-> j, how |-> how])
+    /\ UNCHANGED <<pend, phase>>
+
+(* DoSort: sort_substances_inplace; how = "name" (default key) or "rev" (a key reversing it) *)
+DoSort(i, how) ==
+    /\ phase = "run" /\ IsSys(i) /\ how \in {"name", "rev"}
+    /\ ws' = [ws EXCEPT ![i].ss = IF how = "name" THEN SortSpecies(Subst(ws[i])) ELSE Rev(SortSpecies(Subst(ws[i])))]
+    /\ out' = [op |-> "sorted", ss |-> ws'[i].ss, fresh |-> {i}]
+    /\ hist' = Append(hist, [op |-> "DoSort", i |-> i, how |-> how])
     /\ UNCHANGED <<pend, phase>>
 
 (* queries (pure observations) *)
 QueryDefined(sys, kind, arg) ==
-    CASE kind = "bounds" -> sys.comp # <<>> /\ DOMAIN arg = Subst(sys)
+    CASE kind = "bounds" -> sys.comp # <<>> /\ DOMAIN arg.c = Subst(sys) /\ arg.den \in Nat \ {0}
+                            /\ arg.form \in {"dict", "list"}
       [] kind = "yields" -> /\ FullRank(sys) /\ DOMAIN arg.k = RIdx(sys) /\ DOMAIN arg.y = SysKeys(sys)
                             /\ \A s \in SysKeys(sys) : arg.y[s] = YieldsOf(sys, arg.k, s)
+                            /\ arg.den \in Nat \ {0} /\ IsInj(arg.korder) /\ ToSet(arg.korder) = SysKeys(sys)
       [] kind = "conv"   -> Len(sys.ss) > 0 /\ DOMAIN arg.d = Subst(sys) /\ Len(arg.a) = Len(sys.ss)
                             /\ IsInj(arg.vorder) /\ ToSet(arg.vorder) = DOMAIN arg.vals /\ DOMAIN arg.vals \subseteq Subst(sys)
                             /\ arg.vorder # <<>> /\ \A s \in DOMAIN arg.vals : Len(arg.vals[s]) > 0
       [] kind = "subset" -> TRUE
       [] kind \in {"shape", "graph"} -> TRUE
       [] kind = "dot" -> arg.inact \in BOOLEAN /\ arg.rref0 \in Nat
+      [] kind = "order" -> DOMAIN arg = Subst(sys)
       [] OTHER -> FALSE
 Query(i, kind, arg) ==
     /\ phase = "run" /\ IsSys(i) /\ QueryDefined(ws[i], kind, arg)
@@ -382,23 +433,32 @@ QueryCat(js) ==
 ------------------------------------------------------------------------------
 (* bounded generation: reactions are picked one by one (PickRx), then Make closes the system *)
 NMakes == Cardinality({ k \in 1..Len(hist) : hist[k].op = "Make" })
-NOps == Cardinality({ k \in 1..Len(hist) : hist[k].op \in {"DoSplit", "DoSubset", "DoAdd"} })
+NOps == Cardinality({ k \in 1..Len(hist) : hist[k].op \in {"DoSplit", "DoSubset", "DoAdd", "DoSort"} })
 PendRx == [k \in 1..Len(pend) |-> Catalog[pend[k]]]
 PendKeys == UNION { RKeys(Catalog[pend[k]]) : k \in 1..Len(pend) }
-Rev(q) == [k \in 1..Len(q) |-> q[Len(q) + 1 - k]]
 GivenFor(mode) ==
     CASE mode = "deduce"    -> <<>>
       [] mode = "list-all"  -> Rev(SpeciesSeq)                \* every species, isolated ones included
       [] mode = "str-keys"  -> Rev(SortSpecies(PendKeys))      \* exactly the species used, reversed
       [] mode = "set-all"   -> SpeciesSeq
       [] mode = "odict-rot" -> SubSeq(SpeciesSeq, 3, Len(SpeciesSeq)) \o SubSeq(SpeciesSeq, 1, 2)
+      [] mode \in {"dict-all", "dict-nosort", "list-sort", "list-nocheck"} -> Rev(SpeciesSeq)
+      [] mode \in {"tuple-keys", "tuple-sort"} -> Rev(SortSpecies(PendKeys))
       [] OTHER              -> <<>>
 BaseMode(mode) ==
-    CASE mode = "deduce" -> "deduce" [] mode = "list-all" -> "list" [] mode = "str-keys" -> "str"
-      [] mode = "set-all" -> "set" [] mode = "odict-rot" -> "odict" [] mode = "list-miss" -> "list"
+    CASE mode \in {"deduce", "deduce-nodup", "deduce-nocheck"} -> "deduce"
+      [] mode \in {"list-all", "list-miss", "list-sort", "list-nocheck", "list-add", "list-add-sort"} -> "list"
+      [] mode = "str-keys" -> "str" [] mode = "set-all" -> "set" [] mode = "odict-rot" -> "odict"
+      [] mode \in {"dict-all", "dict-nosort"} -> "dict" [] mode \in {"tuple-keys", "tuple-sort"} -> "tuple"
+OptOf(mode) ==
+    [sort |-> IF mode \in {"list-sort", "tuple-sort", "list-add-sort"} THEN "yes"
+              ELSE IF mode = "dict-nosort" THEN "no" ELSE "default",
+     addmissing |-> mode \in {"list-add", "list-add-sort"},
+     chk |-> IF mode = "deduce-nodup" THEN "nodup" ELSE IF mode \in {"deduce-nocheck", "list-nocheck"} THEN "none"
+             ELSE "default"]
 (* "list-miss": the species used, without the first of them: the constructor must refuse *)
 GivenOf(mode) ==
-    IF mode = "list-miss"
+    IF mode \in {"list-miss", "list-add", "list-add-sort"}
     THEN LET first == SpeciesSeq[MinOf({Idx(s) : s \in PendKeys})] IN SortSpecies(PendKeys \ {first})
     ELSE GivenFor(mode)
 
@@ -406,11 +466,14 @@ PickRx == \E k \in 1..Len(Catalog) :
     /\ phase = "run" /\ Len(pend) < MaxRx /\ NMakes < MaxSys /\ NOps = 0
     /\ (AllowDup \/ \A m \in 1..Len(pend) : pend[m] # k)
     /\ pend' = Append(pend, k) /\ out' = [op |-> "pick", fresh |-> {}] /\ UNCHANGED <<ws, hist, phase>>
+(* a system without reactions is made only from a substance form that does not depend on them *)
+EmptyOK(mode) == mode \in {"list-all", "set-all", "odict-rot", "dict-all"}
 GenMake == \E mode \in Modes :
-    /\ pend # <<>> /\ NMakes < MaxSys
+    /\ (pend # <<>> \/ (EmptyOK(mode) /\ ws = <<>> /\ AllowEmpty)) /\ NMakes < MaxSys
     /\ LET given == GivenOf(mode)
-           ss == MakeSubst(PendRx, BaseMode(mode), given)
-       IN  Make(PendRx, BaseMode(mode), given, IF UseComp THEN RestrictTo(Comp, ToSet(ss) \cup PendKeys) ELSE <<>>)
+           ss == MakeSubst(PendRx, BaseMode(mode), given, OptOf(mode))
+       IN  Make(PendRx, BaseMode(mode), given, IF UseComp THEN RestrictTo(Comp, ToSet(ss) \cup PendKeys) ELSE <<>>,
+                OptOf(mode))
 
 Ready == pend = <<>> /\ ws # <<>> /\ phase = "run"
 CanonParts(sys) == LET c == CanonSplit(sys) IN
@@ -420,11 +483,12 @@ GenSplit == \E i \in 1..Len(ws) : Ready /\ NOps < MaxOps /\ DoSplit(i, CanonPart
 GenSubset == \E i \in 1..Len(ws), p \in Preds :
     /\ Ready /\ NOps < MaxOps
     /\ DoSubset(i, p, CanonSub(ws[i], SubsetYes(ws[i], p)), CanonSub(ws[i], RIdx(ws[i]) \ SubsetYes(ws[i], p)))
-GenAdd == \E i \in 1..Len(ws), j \in 1..Len(ws), how \in {"add", "iadd"} :
+GenSort == \E i \in 1..Len(ws), how \in {"name", "rev"} : Ready /\ NOps < MaxOps /\ DoSort(i, how)
+GenAdd == \E i \in 1..Len(ws), j \in 1..Len(ws), how \in {"add", "iadd", "add-list", "iadd-list"} :
     /\ Ready /\ NOps < MaxOps
     /\ DoAdd(i, j, how, [m \in 1..(NR(ws[i]) + NR(ws[j])) |->
                             IF m <= NR(ws[i]) THEN <<1, m>> ELSE <<2, m - NR(ws[i])>>],
-             UnionOrder(ws[i].ss, ws[j].ss))
+             IF how \in {"add", "iadd"} THEN UnionOrder(ws[i].ss, ws[j].ss) ELSE ws[i].ss)
 
 LastSys == Len(ws)
 ConvArgs(sys) ==
@@ -437,13 +501,19 @@ ConvArgs(sys) ==
 GenQuery ==
     /\ Ready
     /\ \/ \E kind \in QueryKinds \cap {"shape", "graph"} : Query(LastSys, kind, <<>>)
+       \/ "order" \in QueryKinds /\ Query(LastSys, "order", [s \in Subst(ws[LastSys]) |-> 10 + Idx(s)])
        \/ "dot" \in QueryKinds /\ \E inact \in BOOLEAN :
               Query(LastSys, "dot", [inact |-> inact, rref0 |-> IF inact THEN 1 ELSE 0])
        \/ "subset" \in QueryKinds /\ \E p \in Preds : Query(LastSys, "subset", p)
        \/ "conv" \in QueryKinds /\ \E a \in ConvArgs(ws[LastSys]) : Query(LastSys, "conv", a)
-       \/ "bounds" \in QueryKinds /\ \E c \in [Subst(ws[LastSys]) -> ConcGrid] : Query(LastSys, "bounds", c)
+       \/ "bounds" \in QueryKinds /\ \E c \in [Subst(ws[LastSys]) -> ConcGrid], den \in {1, 2} :
+              Query(LastSys, "bounds", [c |-> c, den |-> den, form |-> IF den = 1 THEN "dict" ELSE "list"])
        \/ "yields" \in QueryKinds /\ \E k \in [RIdx(ws[LastSys]) -> YieldK] :
-              Query(LastSys, "yields", [k |-> k, y |-> [s \in SysKeys(ws[LastSys]) |-> YieldsOf(ws[LastSys], k, s)]])
+              \E den \in {1, 2} :
+              Query(LastSys, "yields", [k |-> k, y |-> [s \in SysKeys(ws[LastSys]) |-> YieldsOf(ws[LastSys], k, s)],
+                                        den |-> den,
+                                        korder |-> IF den = 1 THEN SortSpecies(SysKeys(ws[LastSys]))
+                                                   ELSE Rev(SortSpecies(SysKeys(ws[LastSys])))])
 GenQuery2 == \E i \in 1..Len(ws), j \in 1..Len(ws), kind \in QueryKinds \cap {"add", "eq", "concat"} :
     Ready /\ Query2(i, j, kind)
 
@@ -453,7 +523,7 @@ GenQueryCat ==
     /\ \/ "concatn" \in QueryKinds /\ \E js \in { q \in [1..3 -> 1..Len(ws)] : IsInj(q) } : QueryCat(js)
        \/ "concatn-last" \in QueryKinds /\ LET n == Len(ws) IN \E js \in {<<n - 2, n - 1, n>>, <<n, n - 1, n - 2>>} : QueryCat(js)
 
-Next == PickRx \/ GenMake \/ GenSplit \/ GenSubset \/ GenAdd \/ GenQuery \/ GenQuery2 \/ GenQueryCat
+Next == PickRx \/ GenMake \/ GenSplit \/ GenSubset \/ GenAdd \/ GenSort \/ GenQuery \/ GenQuery2 \/ GenQueryCat
 
 ------------------------------------------------------------------------------
 (* invariants; each is checked on the systems created or changed by the last step (`fresh`):  *)
@@ -490,8 +560,8 @@ WorkspaceWellFormed == \A i \in Fresh : WellFormed(ws[i])
 (* no non-negative state (on the grid) with the same element totals exceeds the bound *)
 BoundDominatesFeasibleStates ==
     (out.op = "query" /\ out.kind = "bounds") =>
-        LET h == hist[Len(hist)]  sys == ws[h.i]  c0 == h.arg IN
-        \A c \in [Subst(sys) -> ConcGrid] :
+        LET h == hist[Len(hist)]  sys == ws[h.i]  c0 == h.arg.c IN
+        h.arg.den = 1 => \A c \in [Subst(sys) -> ConcGrid] :
             (\A e \in AllElems(sys) : ElemTotal(sys, c, e) = ElemTotal(sys, c0, e)) =>
                 \A s \in Subst(sys) : LET b == UpperBound(sys, c0, s) IN b = Inf \/ QLe(<<c[s], 1>>, b)
 
@@ -520,7 +590,9 @@ View == <<ws, pend, out, phase, NMakes, NOps>>
 ------------------------------------------------------------------------------
 Done == phase = "done"
 LastEv == hist[Len(hist)]
-Cls == IF LastEv.op = "Make" THEN (IF out.raised THEN "make-refused" ELSE "make-" \o LastEv.mode)
+OptTag(o) == (IF o.sort = "default" THEN "" ELSE "-sort-" \o o.sort) \o (IF o.addmissing THEN "-add" ELSE "")
+             \o (IF o.chk = "default" THEN "" ELSE "-" \o o.chk)
+Cls == IF LastEv.op = "Make" THEN (IF out.raised THEN "make-refused" ELSE "make-" \o LastEv.mode) \o OptTag(LastEv.opt)
        ELSE IF LastEv.op = "Query" /\ LastEv.kind = "graph"
             THEN "graph-" \o ToString(Cardinality(Split(ws[LastEv.i]))) \o "-" \o ToString(NR(ws[LastEv.i]))
        ELSE IF LastEv.op = "Query" /\ LastEv.kind = "conv" THEN "conv-" \o ToString(Len(LastEv.arg.vorder))
